@@ -1,4 +1,6 @@
 import RulioProofs.ReloadIndexed
+import RulioProofs.CloseReload
+import Props.C01
 
 open AM
 
@@ -11,7 +13,7 @@ the Bolt back end are exercised by the dynamic part of the C06 check). Vocabular
 (successful or not, both state kinds, cascades and expiry-triggered removals included) started from the empty
 state: the storage map is exactly the image of the in-memory facts — for every id the stored document is the
 prepared in-memory fact — and both are finite maps with unique ids. -/
-theorem store_mirrors_facts (k : Kind) (ops : List StOp) :
+theorem store_mirrors_facts (k : Kind) (ops : List ROp) :
     let s := (St.empty k).runOps ops
     (∀ id, amGet s.store id = (amGet s.facts id).map J.obj) ∧
       (s.facts.map (·.1)).Nodup ∧ (s.store.map (·.1)).Nodup :=
@@ -19,7 +21,7 @@ theorem store_mirrors_facts (k : Kind) (ops : List StOp) :
   ⟨ok.mirror, ok.factsNodup, ok.storeNodup⟩
 
 /-- the invariant is inductive: one more operation on any state that satisfies it keeps it -/
-theorem store_mirrors_facts_step {s : St} (ok : StoreOK s) (op : StOp) : StoreOK (s.stepOp op).1 :=
+theorem store_mirrors_facts_step {s : St} (ok : StoreOK s) (op : ROp) : StoreOK (s.stepOp op).1 :=
   St.stepOp_storeOK ok op
 
 example : StoreOK ((St.empty .indexed).runOps
@@ -35,7 +37,7 @@ theorem reload_facts_linear {s : St} (ok : StoreOK s) :
   lLoad_spec ok
 
 /-- … in particular after every history on a linear state -/
-theorem reload_facts_linear_history (ops : List StOp) :
+theorem reload_facts_linear_history (ops : List ROp) :
     ∃ t, ((St.empty .linear).runOps ops).reload 0 = .ok t ∧
       ∀ id, amGet t.facts id = amGet ((St.empty .linear).runOps ops).facts id := by
   have ok := St.runOps_storeOK ops (St.empty_storeOK .linear)
@@ -81,21 +83,21 @@ example : isOk ((((St.empty .linear).add "x" [("a", .num 1)] 5).1.rem "x" 6).2) 
 
 /-- **store_is_facts_image** — stronger, list-level form of the mirror for every history of either kind: storage is
 the in-memory fact list document by document *in the same order* (both are updated by the same `amSet`/`amErase`). -/
-theorem store_is_facts_image (k : Kind) (ops : List StOp) :
+theorem store_is_facts_image (k : Kind) (ops : List ROp) :
     ((St.empty k).runOps ops).store = ((St.empty k).runOps ops).facts.map (fun p => (p.1, J.obj p.2)) :=
   St.runOps_storeEq ops (s := St.empty k) rfl
 
 /-- **reload_linear_identity** — for every history on a linear state, reloading from storage gives back *the very
 same state* (facts, storage, id counter; the linear state never touches the indexes). -/
-theorem reload_linear_identity (ops : List StOp) (now : Int) :
+theorem reload_linear_identity (ops : List ROp) (now : Int) :
     ((St.empty .linear).runOps ops).reload now = .ok ((St.empty .linear).runOps ops) :=
   reload_linear_id (St.runOps_storeEq ops (s := St.empty .linear) rfl)
     (St.runOps_linIdx ops (s := St.empty .linear) ⟨rfl, rfl, rfl⟩) now
 
 /-- **reload_observationally_equal (linear)** — hence every later history of operations behaves identically on the
 reloaded and on the live state: same results, same final state. -/
-theorem reload_observationally_equal_linear (ops later : List StOp) (now : Int) (t : St)
-    (h : ((St.empty .linear).runOps ops).reload now = .ok t) (op : StOp) :
+theorem reload_observationally_equal_linear (ops later : List ROp) (now : Int) (t : St)
+    (h : ((St.empty .linear).runOps ops).reload now = .ok t) (op : ROp) :
     (t.runOps later).stepOp op = (((St.empty .linear).runOps ops).runOps later).stepOp op := by
   rw [reload_linear_identity] at h
   cases h
@@ -128,7 +130,7 @@ example : isOk (prepareFact "r1" "fresh#0"
 of the storage succeeds and its in-memory facts are exactly the live facts that are not expired at `now`, in the same
 order, with the same contents (hence the same absolute `expires`). That stored rule patterns can be re-indexed
 (`AllIndexable`) is proved from reachability: whether `AddPatternMap` fails depends on the pattern only. -/
-theorem reload_facts_indexed (ops : List StOp) (now : Int) :
+theorem reload_facts_indexed (ops : List ROp) (now : Int) :
     ∃ t, St.iLoad ((St.empty .indexed).runOps ops).store now = .ok t ∧ t.kind = .indexed ∧
       t.facts = ((St.empty .indexed).runOps ops).facts.filter (fun p => unexpired p.2 now) :=
   have inv := IdxInv.runOps ops IdxInv.empty
@@ -160,7 +162,7 @@ that the live state used; that proof belongs to the index provers), so it is a h
 theorem reload_observationally_equal_indexed_partial {β : Type} (IndexInv : St → Prop) (obs : St → β) (now : Int)
     (hobs : ∀ s t : St, IndexInv s → IndexInv t →
       s.facts.filter (fun p => unexpired p.2 now) = t.facts.filter (fun p => unexpired p.2 now) → obs s = obs t)
-    (ops : List StOp) (t : St) (ht : St.iLoad ((St.empty .indexed).runOps ops).store now = .ok t)
+    (ops : List ROp) (t : St) (ht : St.iLoad ((St.empty .indexed).runOps ops).store now = .ok t)
     (hlive : IndexInv ((St.empty .indexed).runOps ops)) (hre : IndexInv t) :
     obs t = obs ((St.empty .indexed).runOps ops) := by
   obtain ⟨t', ht', _, hf⟩ := reload_facts_indexed ops now
@@ -169,3 +171,137 @@ theorem reload_observationally_equal_indexed_partial {β : Type} (IndexInv : St 
   apply hobs t _ hre hlive
   rw [hf, List.filter_filter]
   simp
+
+
+/-! ## closing `reload_observationally_equal_indexed_partial` (composition with the invariants of C01 / C02 / C08)
+
+`IdxInvs s` (RulioModel/CloseFrag.lean) = indexed kind ∧ `WF s` (unique ids, no variable-looking id, `TIOK`, `TINodup`) ∧
+`StIdx s` (the rule-index invariant of C01). `ReloadSim s t` = same facts, storage and id counter, `IdxInvs` of both. -/
+
+/-- **reload_index_invariants** — the indexed `Load` of *any* storage contents at *any* time, whenever it succeeds,
+yields a state that satisfies the same invariants as a live reachable state: `WF` (with `KeysNodup`, `IdsOK`, `TIOK`,
+`TINodup`) and the rule-index invariant `StIdx`. Reason: `Load` is a history of the very in-memory `add`s the live
+state uses, started from empty indexes (`iLoad_go_inv`); dropping an expired record touches storage only.
+The same holds for `St.reload` of an indexed state. -/
+theorem reload_index_invariants (docs : List (String × J)) (now : Int) :
+    (∀ t, St.iLoad docs now = .ok t → t.kind = .indexed ∧ WF t ∧ StIdx t) ∧
+    (∀ s t : St, s.kind = .indexed → s.reload now = .ok t → t.kind = .indexed ∧ WF t ∧ StIdx t) :=
+  ⟨fun _ h => ⟨(iLoad_inv h).kind, (iLoad_inv h).wf, (iLoad_inv h).idx⟩,
+   fun _ _ hk h => ⟨(reload_inv hk h).kind, (reload_inv hk h).wf, (reload_inv hk h).idx⟩⟩
+
+/-- **live_index_invariants** — every state reachable by a history of `Add`/`Rem`/`Get`/`Search`/`FindRules`/`Clear`
+(the six-operation histories of this file, any clocks) is well-formed, for both kinds; an indexed one moreover
+satisfies `StIdx` and is reachable in the sense of C01 (`IReach`). -/
+theorem live_index_invariants (k : Kind) (ops : List ROp) :
+    WF ((St.empty k).runOps ops) ∧
+    (k = .indexed → StIdx ((St.empty k).runOps ops) ∧ IReach ((St.empty k).runOps ops)) := by
+  refine ⟨WF.runOps ops ((wf_empty k).of_eq rfl rfl rfl), fun hk => ?_⟩
+  subst hk
+  exact ⟨(IdxInvs.runOps ops IdxInvs.empty).idx, IReach.runOps ops .init rfl⟩
+
+/-- **reload_observationally_equal_indexed** — `reload_observationally_equal_indexed_partial` with its two invariant
+hypotheses discharged: any observation `obs` that, on states satisfying the index invariants, is determined by the
+facts unexpired at `now`, takes the same value on the reloaded and on the live state — for every history and every
+reload time. (What such observations are is spelled out in `in_step_observations`.) -/
+theorem reload_observationally_equal_indexed {β : Type} (obs : St → β) (now : Int)
+    (hobs : ∀ s t : St, IdxInvs s → IdxInvs t →
+      s.facts.filter (fun p => unexpired p.2 now) = t.facts.filter (fun p => unexpired p.2 now) → obs s = obs t)
+    (ops : List ROp) (t : St) (ht : St.iLoad ((St.empty .indexed).runOps ops).store now = .ok t) :
+    obs t = obs ((St.empty .indexed).runOps ops) :=
+  reload_observationally_equal_indexed_partial IdxInvs obs now hobs ops t ht
+    (IdxInvs.runOps ops IdxInvs.empty) (iLoad_inv ht)
+
+/-- **in_step_observations** — what is equal on two states in step (`ReloadSim`: live indexed state and its reload):
+1. facts, storage and id counter are equal (as lists, hence as finite maps);
+2. `Get` answers the same fact for every id at every time (`.ok f` on one iff on the other); when the addressed fact is
+   absent or not expired the two `Get`s are the same pure read (identical result, error included, states untouched);
+3. `Add` answers the same id or the same error; `Rem` inside the fragment of `OpsOK` succeeds on both with the same flag;
+4. inside the C02 fragment (`TermOK` pattern, matcher sound on the stored facts, nothing expired at that time) both
+   `Search`es succeed, change nothing, and return the matches of the specification `specSearch` up to order —
+   i.e. equal multisets of (id, bindings); the order differs because the term-index candidate order differs;
+5. inside the C01 fragment (`IdxOK` pattern over an `EvOK` event) every stored non-scheduled rule whose `when` lies
+   over the event is among the dispatch candidates of both pattern indexes. -/
+theorem in_step_observations {s t : St} (h : ReloadSim s t) :
+    (t.facts = s.facts ∧ t.store = s.store ∧ t.fresh = s.fresh) ∧
+    ((∀ id now f, (t.get id now).2 = .ok f ↔ (s.get id now).2 = .ok f) ∧
+     (∀ id now, (∀ f, amGet s.facts id = some f → checkExpiration f now = .ok false) →
+        ∃ r, s.get id now = (s, r) ∧ t.get id now = (t, r))) ∧
+    ((∀ g x now, (t.add g x now).2 = (s.add g x now).2) ∧
+     (∀ id now, NoneExpired s now → isVar id = false → UnindexOK s →
+        (t.rem id now).2 = (s.rem id now).2 ∧ ∃ b, (s.rem id now).2 = .ok b)) ∧
+    (∀ p now R, NoneExpired s now → TermOK p = true → MatcherSoundOn s.facts p → specSearch s.facts p now = .ok R →
+      ∃ Rs Rt, s.search p now = (s, .ok Rs) ∧ t.search p now = (t, .ok Rt) ∧
+        (projRes Rs).Perm R ∧ (projRes Rt).Perm R ∧ (projRes Rt).Perm (projRes Rs)) ∧
+    (∀ ev id fact pat σ, amGet s.facts id = some fact → whenOf fact = some pat → IdxOK pat = true → EvOK ev = true →
+      pmv σ (.obj pat) (.obj ev) = true →
+      (∃ ids, piSearch s.ri ev = .ok ids ∧ id ∈ ids) ∧ (∃ ids, piSearch t.ri ev = .ok ids ∧ id ∈ ids)) := by
+  refine ⟨⟨h.mem.facts, h.mem.store, h.mem.fresh⟩,
+    ⟨fun id now f => get_ok_congr h.mem.facts id now f, fun id now hq => get_quiet_congr h.mem.facts id now hq⟩,
+    ⟨fun g x now => h.add_result g x now, fun id now hne hid hun => h.rem_result ⟨hne, hid, hun⟩⟩, ?_, ?_⟩
+  · intro p now R hne hterm hsound hspec
+    obtain ⟨Rs, Rt, h1, h2, h3, h4⟩ := search_perm_congr h.live h.re h.mem.facts hne hterm hsound hspec
+    exact ⟨Rs, Rt, h1, h2, h3, h4, h4.trans h3.symm⟩
+  · intro ev id fact pat σ hst hwhen hp hev hm
+    have key : ∀ u : St, StIdx u → amGet u.facts id = some fact → ∃ ids, piSearch u.ri ev = .ok ids ∧ id ∈ ids := by
+      intro u hu hg
+      obtain ⟨π, hπ, hid⟩ := hu.2 id fact pat hg hwhen
+      obtain ⟨π', hπ', hemb⟩ := match_embeds σ pat ev hp hev hm
+      rw [hπ] at hπ'; cases hπ'
+      obtain ⟨ids, hs⟩ := piSearch_succeeds u.ri ev hev
+      exact ⟨ids, hs, piSearch_embeds _ ev π id ids hid hemb hs⟩
+    exact ⟨key s h.live.idx hst, key t h.re.idx (by rw [h.mem.facts]; exact hst)⟩
+
+/-- **reload_in_step** — for every history `ops` on an indexed state, every reload time `now` at which no stored fact is
+expired, and every later history inside the fragment `OpsOK` (writes and `Clear` unrestricted; `Get` of an absent or
+unexpired fact; `Search`/`FindRules` while nothing is expired; `Rem` of a non-variable id while nothing is expired and
+every stored rule can leave the pattern index): the reload succeeds with the same facts, storage and id counter, and
+after **every** prefix of the later history the live and the reloaded state are still in step — so all of
+`in_step_observations` holds after every step — and each write is acknowledged identically on both.
+
+Not covered (full statement of C06 for the indexed kind): later operations that run while some stored fact is expired
+(expiry-triggered cascades visit the term-index lists in their own order, and an aborting cascade stops at an
+order-dependent point), `Rem` when some stored rule cannot leave the pattern index, search results outside the C02
+fragment and dispatch candidates outside the C01 fragment (stale index entries are not excluded by `WF`/`StIdx`).
+When some fact *is* expired at `now`, `reload_facts_indexed` + `reload_index_invariants` +
+`reload_observationally_equal_indexed` still give: the reload holds exactly the unexpired facts and satisfies the
+invariants, so every observation determined by the unexpired facts agrees. -/
+theorem reload_in_step (ops later : List ROp) (now : Int)
+    (hne : NoneExpired ((St.empty .indexed).runOps ops) now) (hok : OpsOK ((St.empty .indexed).runOps ops) later) :
+    ∃ t, ((St.empty .indexed).runOps ops).reload now = .ok t ∧
+      ReloadSim ((St.empty .indexed).runOps ops) t ∧
+      ∀ k, ReloadSim (((St.empty .indexed).runOps ops).runOps (later.take k)) (t.runOps (later.take k)) := by
+  obtain ⟨t, hr, hsim⟩ := ReloadSim.of_reload (IdxInv.runOps ops IdxInv.empty) (IdxInvs.runOps ops IdxInvs.empty) hne
+  exact ⟨t, hr, hsim, fun k => hsim.runOps _ (OpsOK.take k hok)⟩
+
+/-- non-vacuity of `reload_index_invariants`: a `Load` that succeeds (a fact and a rule; the expired record is dropped) -/
+example : (match St.iLoad [("x", .obj [("a", .num 1)]), ("e", .obj [("expires", .num 5)]),
+      ("r", .obj [("rule", .obj [("when", .obj [("a", .num 1)])])])] 10 with
+    | .ok t => t.facts.map (·.1) | .error _ => []) = ["x", "r"] := by decide +kernel
+
+/-- non-vacuity of `reload_in_step`: after `reloadOps` (an expiring fact, a rule, a dependent, an overwritten fact that
+leaves stale ids in the live term index) nothing is expired at 15, `laterOps` is inside the fragment, so the reloaded
+state stays in step through all of it; the live term index really differs from the rebuilt one -/
+example :
+    NoneExpired ((St.empty .indexed).runOps reloadOps) 15 ∧ OpsOK ((St.empty .indexed).runOps reloadOps) laterOps ∧
+    (∃ t, ((St.empty .indexed).runOps reloadOps).reload 15 = .ok t ∧
+      (t.runOps laterOps).facts = (((St.empty .indexed).runOps reloadOps).runOps laterOps).facts ∧
+      t.facts.map (·.1) = ["x", "r", "d", "o"]) ∧
+    (match ((St.empty .indexed).runOps reloadOps).reload 15 with
+      | .ok t => t.ti.length | .error _ => 0) ≠ ((St.empty .indexed).runOps reloadOps).ti.length := by
+  have hne : NoneExpired ((St.empty .indexed).runOps reloadOps) 15 := noneExpired_of_check (by decide +kernel)
+  have hok : OpsOK ((St.empty .indexed).runOps reloadOps) laterOps :=
+    ⟨trivial,
+     fun f hg => (noneExpired_of_check (s := (((St.empty .indexed).runOps reloadOps).runOps (laterOps.take 1))) (now := 21)
+       (by decide +kernel)) ("x", f) (amGet_some_mem hg),
+     trivial,
+     fun f hg => (noneExpired_of_check (s := (((St.empty .indexed).runOps reloadOps).runOps (laterOps.take 3))) (now := 24)
+       (by decide +kernel)) ("d", f) (amGet_some_mem hg),
+     ⟨noneExpired_of_check (by decide +kernel), by decide +kernel, unindexOK_of_check (by decide +kernel)⟩,
+     trivial⟩
+  refine ⟨hne, hok, ?_, by decide +kernel⟩
+  obtain ⟨t, hr, hsim, hall⟩ := reload_in_step reloadOps laterOps 15 hne hok
+  refine ⟨t, hr, ?_, ?_⟩
+  · have := (hall laterOps.length).mem.facts
+    rw [List.take_length] at this
+    exact this
+  · rw [hsim.mem.facts]; decide +kernel
